@@ -291,18 +291,15 @@ func (gc *primaryGC) reapRecords(fileNum uint32, lowUsePercent int64) (bool, err
 	// last 2 records, that are still in use, into a later primary. This will
 	// allow low-use primary files to evaporate over time.
 	if 100*totalFree >= lowUsePercent*(totalFree+totalBusy) {
-		scratch := make([]byte, 1024)
-
 		for busyAt >= 0 {
 			// Read the record data.
 			if _, err = file.ReadAt(sizeBuf, busyAt); err != nil {
 				return false, fmt.Errorf("cannot read record size: %w", err)
 			}
 			size := binary.LittleEndian.Uint32(sizeBuf)
-			if int(size) > len(scratch) {
-				scratch = make([]byte, size)
-			}
-			data := scratch[:size]
+			// The primary keeps the key and value slices it is given until they
+			// are flushed, so each moved record is read into its own buffer.
+			data := make([]byte, size)
 			if _, err = file.ReadAt(data, busyAt+sizePrefixSize); err != nil {
 				return false, fmt.Errorf("cannot read record data: %w", err)
 			}
